@@ -120,6 +120,33 @@ def parse_switch(src):
     return out
 
 
+# ---------------------------------------------------------------- who writes the recalculation flag
+FLAG = "recalculate_integer_coordinates_this_timestep"
+
+
+def parse_flag_assignments(repo):
+    """every assignment to ri_janus.recalculate_integer_coordinates_this_timestep in src/*.c and in the
+    Python package: (file, right hand side).  A new setter (e.g. "after a callback") re-derives the
+    grid state from the doubles and destroys exact reversibility."""
+    out = []
+    src = os.path.join(repo, "src")
+    for f in sorted(os.listdir(src)):
+        if f.endswith(".c") or f.endswith(".h"):
+            txt = strip_c_comments(open(os.path.join(src, f), errors="replace").read())
+            for m in re.finditer(FLAG + r"\s*(?:\|=|\+=|=)(?!=)\s*([^;]*);", txt):
+                out.append((f, re.sub(r"\s+", " ", m.group(1).strip())))
+    pk = os.path.join(repo, "rebound")
+    for root, _, files in os.walk(pk):
+        for f in sorted(files):
+            if f.endswith(".py"):
+                txt = re.sub(r"#[^\n]*", "", open(os.path.join(root, f), errors="replace").read())
+                for m in re.finditer(FLAG + r"\s*=(?!=)\s*([^\n]*)", txt):
+                    out.append(("rebound/" + os.path.relpath(os.path.join(root, f), pk), m.group(1).strip()))
+    if not out:
+        raise ExtractError("no assignment to %s found at all (the field was renamed?)" % FLAG)
+    return out
+
+
 # ---------------------------------------------------------------- compiled bits
 HARNESS = r"""
 #include <stdio.h>
@@ -205,7 +232,7 @@ def extract(repo, scratch=None):
             t["ggvals"] = c["ggvals"]
     else:
         raise ExtractError("a scratch build is needed to read the compiled tables")
-    return dict(tables=tables, glen=glen, gg=gg, switch=sw)
+    return dict(tables=tables, glen=glen, gg=gg, switch=sw, flag=parse_flag_assignments(repo))
 
 
 def lean_q(fr):
@@ -266,6 +293,11 @@ def render(ex):
         L.append("def orderSwitch%d : List (Nat × String) × String × Bool :=" % (k + 1))
         L.append("  ([" + ", ".join('(%d, "%s")' % (o, n) for o, n in sorted(cases.items())) + '], "%s", %s)' % (dflt, "true" if err else "false"))
     L.append("def nSwitches : Nat := %d" % len(ex["switch"]))
+    L.append("")
+    L.append("/-- every assignment to `ri_janus.recalculate_integer_coordinates_this_timestep` in src/ and in the")
+    L.append("    Python package: (file, right hand side) -/")
+    L.append("def flagAssignments : List (String × String) := [" + ", ".join('("%s", "%s")' % (f, r.replace('"', "'")) for f, r in ex["flag"]) + "]")
+    L.append("def nFlagAssignments : Nat := %d" % len(ex["flag"]))
     L.append("")
     L.append("end RV.Gen.C10")
     return "\n".join(L) + "\n"
